@@ -17,9 +17,13 @@ var zxRes = time.Second
 
 func zxBase() time.Time { return vrtGridTime("base", zxRes) }
 
-// zxKey: a key of 1..maxLen symbolic bytes (length is a shape).
+// zxKey: a key of 0..maxLen symbolic bytes (length is a shape; the empty key is what a point
+// without any of the GROUP BY dimensions gets).
 func zxKey(name string, maxLen int) []byte {
-	n := vrtShape("len"+name, maxLen) + 1
+	n := vrtShape("len"+name, maxLen+1)
+	if n == 0 {
+		return []byte{}
+	}
 	return vrtBytes(name, n)
 }
 
@@ -39,10 +43,12 @@ func zxSameKey(a, b []byte) bool {
 }
 
 // C01.B — after K updates with arbitrary keys (any prefix / equal / diverging relation between
-// them), walking the tree visits exactly one node per distinct key, under that key, holding the
-// fold of exactly that key's updates; Length() is the number of distinct keys.
+// them, the empty key included), walking the tree visits exactly one node per distinct key, under
+// that key, holding the fold of exactly that key's updates; Length() is the number of distinct
+// keys; and Remove (how a flush and a query pair a file row with its memstore row) finds every
+// inserted key exactly once, returns that key's data, and finds no key that was not inserted.
 //
-//zx:harness prop=C01 id=C01.B tier=quick K=3 L=3 shard=lenk0:3,lenk1:3 thorough.K=4 thorough.L=3 thorough.shard=lenk0:3,lenk1:3,lenk2:3
+//zx:harness prop=C01+C03 id=C01.B tier=quick K=3 L=3 shard=lenk0:4,lenk1:4 thorough.K=4 thorough.L=3 thorough.shard=lenk0:4,lenk1:4,lenk2:4
 func zxC01Tree() {
 	K := vrtParam("K", 3)
 	L := vrtParam("L", 3)
@@ -96,6 +102,30 @@ func zxC01Tree() {
 	for _, w := range wants {
 		vrtAssert(w.hit == 1, "each distinct key is visited exactly once")
 	}
+	// Remove under a scan context: an absent key first, then every inserted key twice
+	kx := zxKey("kx", L)
+	absent := true
+	for _, w := range wants {
+		absent = vrtAnd(absent, !zxSameKey(w.key, kx))
+	}
+	if absent {
+		vrtAssert(bt.Remove(1, kx) == nil, "Remove of a key that was never inserted finds nothing")
+	}
+	for _, w := range wants {
+		data := bt.Remove(1, w.key)
+		vrtAssert(data != nil, "Remove finds an inserted key (key length "+zxItoa(len(w.key))+")")
+		if data != nil {
+			v, ok := data[0].ValueAt(0, e)
+			vrtAssert(ok && v == w.sum, "Remove returns the data of exactly that key")
+		}
+		vrtAssert(bt.Remove(1, w.key) == nil, "a key removed under a context is not found again under it")
+	}
+	left := 0
+	bt.Walk(1, func(key []byte, data []encoding.Sequence) (bool, bool, error) {
+		left++
+		return true, true, nil
+	})
+	vrtAssert(left == 0, "a walk under the context skips every removed key")
 	vrtReach("C01.B")
 }
 
@@ -105,7 +135,7 @@ func zxC01Tree() {
 // change what the live tree holds (DESIGN §5 C18: the schedule quantifier reduced to sequential
 // aliasing).
 //
-//zx:harness prop=C18+C04 id=C18.A tier=quick L=2 shard=later:3 thorough.L=3 thorough.shard=later:3,lenk1:3
+//zx:harness prop=C18+C04 id=C18.A tier=quick L=2 shard=later:3 thorough.L=3 thorough.shard=later:3,lenk1:4
 func zxC18Snapshot() {
 	L := vrtParam("L", 2)
 	e := expr.SUM(expr.FIELD("a"))
